@@ -698,6 +698,9 @@ def gen_ipmw(rng):
     raise RuntimeError('no usable IPMW draw')
 
 
+AIPSW_SEQ = [0]
+
+
 def gen_generalize(rng, cls):
     rs = np.random.RandomState(rng.randrange(2 ** 31))
     for _ in range(50):
@@ -720,6 +723,16 @@ def gen_generalize(rng, cls):
         df['_rid_'] = np.arange(n)
         cfg = {'n': n, 'gen': rng.random() < 0.5, 'stab': rng.random() < 0.5, 'rx': rng.random() < 0.6, 'continuous': continuous,
                'fS': 'X + C(G)', 'fA': 'X + C(G)', 'fQ': rng.choice(['A + X + C(G)', 'A + X + C(G) + A:X'])}
+        if cls == 'AIPSW':
+            AIPSW_SEQ[0] += 1
+            if AIPSW_SEQ[0] % 2 == 1:
+                cfg['rx'] = False          # every other AIPSW data set: no treatment model, some treatments not recorded
+        if cls == 'AIPSW' and not cfg['rx']:
+            # a few members of the study sample whose treatment was not recorded although their outcome was: they enter the
+            # estimator through the outcome model's predictions only, whichever way the treatment is coded
+            pos = np.flatnonzero(df['S'].to_numpy() == 1)
+            df.loc[df.index[pos[::max(1, len(pos) // 6)][:6]], 'A'] = np.nan
+            cfg['sample_rows_without_treatment'] = True
         return df, cfg, {'cont': ['X'], 'cat': 'G', 'trt': ['A'], 'out': 'Y'}, continuous
     raise RuntimeError('no usable generalize draw')
 
